@@ -16,8 +16,9 @@
   Part II (gate): for every interleaving of the labelled transition system of the gate, with any
           number of `spawn_missing_watchers` batches — `gate_safe`, `pass_safe`, `detach_safe`,
           `ungated_only_after_ready`, `late_kind_witness` (by design, F4); beyond the property:
-          `gate_can_open_partial` (from every reachable Healthy state) with `gate_stuck_of_leak`
-          and two reachable witnesses; and witnesses that three broken variants violate safety.
+          `gate_can_open_iff` (the gate can open from a reachable state iff no toggle is stranded),
+          `gate_stuck_of_leak`, `gate_stuck_dead_watcher_witness`; and witnesses that three broken
+          variants of the transition system violate safety.
 -/
 import Kopf.Base.J
 import Kopf.Lemmas.C17_Mirror
@@ -392,30 +393,42 @@ theorem ungated_only_after_ready {s : GState R O} (h : Reach s) (ro : R × O) (w
   | false => have := ((hi.a he).2 ro w hw).1; simp [hg] at this
 
 /- Full statement of "the gate can always open" (FALSE of the code and of the model, see
-   `stuck_of_leak` and the two reachable witnesses):
+   `gate_stuck_dead_watcher_witness`):
      ∀ s, Reach s → ∃ ls s', run .none s ls = some s' ∧ Open s'
    This is a liveness statement BEYOND property C17 (whose gate clause is pure safety); it is kept
    here because a safety theorem about a gate that could never open would be hollow. -/
-/-- **The gate can open, partial**: from every reachable `Healthy` state (nothing leaked, every
-    per-object toggle in the set belongs to a live worker whose `index_resource` is running or has
-    returned) there is a continuation — the pending spawns, the toggles of watchers caught between
-    `is_on()` and `make_toggle`, the outstanding LISTEDs, each started `index_resource` returning —
-    after which the set is on and every worker is past the gate. Possibility, not fairness: the
-    continuation uses no `indexFail` and no `die`. Outside the guard are (a) states with a leaked
-    toggle — provably stuck for ever (`stuck_of_leak`), reachable by a failed indexing cycle
-    followed by the worker's idle exit (`gate_stuck_witness`) and by a watcher that ends before its
-    LISTED (`gate_stuck_dead_watcher_witness`); (b) states in which an idle worker still holds its
-    toggle after a failed cycle — these open only if another event of that object arrives. -/
-theorem gate_can_open_partial {s : GState R O} (h : Reach s) (hh : Healthy s) :
-    ∃ ls s', run .none s ls = some s' ∧ Open s' := by
-  obtain ⟨ls0, hls0⟩ := h
-  exact can_open_aux (mu s) s (Nat.le_refl _) (run_inv ls0 inv_init hls0)
-    (PInv.ofU (run_pinvU ls0 inv_init pinvU_init hls0) hh)
+/-- **The gate can open — exactly when no toggle is stranded.** From a reachable state there is a
+    continuation (the pending spawns, the toggles of watchers caught between `is_on()` and
+    `make_toggle`, the outstanding LISTEDs, each started indexing cycle ending — returning or, since
+    kopf 58a504d, failing: the toggle is dropped either way) after which the set is on and every
+    worker is past the gate, IF AND ONLY IF the state is `Healthy`: no per-kind toggle has outlived
+    its watcher and no per-object toggle its worker. Possibility, not fairness. The only way out of
+    `Healthy` is a watcher task that ends (`die`) while its kind toggle, or a toggle of a worker
+    that has not yet entered its cycle, is still in the set (AUDIT_B2 §D #8; not repaired in kopf:
+    `proposals/fix-C17N1`). -/
+theorem gate_can_open_iff {s : GState R O} (h : Reach s) :
+    (∃ ls s', run .none s ls = some s' ∧ Open s') ↔ Healthy s := by
+  constructor
+  · rintro ⟨ls, s', hr, ho⟩
+    cases hl : s.leaked with
+    | cons x r =>
+      have := stuck_of_leak (Or.inl (by simp [hl])) ls s' hr
+      simp [ho.1] at this
+    | nil =>
+      cases hk : s.leakedK with
+      | cons x r =>
+        have := stuck_of_leak (Or.inr (by simp [hk])) ls s' hr
+        simp [ho.1] at this
+      | nil => exact ⟨hl, hk⟩
+  · intro hh
+    obtain ⟨ls0, hls0⟩ := h
+    exact can_open_aux (mu s) s (Nat.le_refl _) (run_inv ls0 inv_init hls0)
+      (PInv.ofU (run_pinvU ls0 inv_init pinvU_init hls0) hh)
 
 /-- **A stranded toggle closes the gate for good**: once a per-object toggle has leaked (its worker
     exited without `drop_toggle`) or a per-kind toggle has (its watcher ended before `LISTED`), the
-    set is never on again, on any continuation. (Observation beyond the property; proposals
-    `fix-C17F3`, `fix-C17N1`.) -/
+    set is never on again, on any continuation. (Observation beyond the property; proposal
+    `fix-C17N1`.) -/
 theorem gate_stuck_of_leak {s : GState R O} (hl : s.leaked ≠ [] ∨ s.leakedK ≠ []) (ls : List (Label R O))
     (s' : GState R O) (h : run .none s ls = some s') : s'.isOn = false :=
   stuck_of_leak hl ls s' h
@@ -477,15 +490,18 @@ theorem late_kind_witness : ∃ (ls : List (Label Nat Nat)) (s s' : GState Nat N
   revert this
   decide
 
--- the guard of `gate_can_open_partial` holds in the middle of a start-up (toggles held by live workers)
+-- `Healthy` holds in the middle of a start-up (gate closed, toggles held by live workers)
 example : (run .none GState.init (nsTrace.take 15)).map (fun s => (healthyB s, s.isOn)) = some (true, false) := by
   decide
 
--- a failed cycle alone is not fatal: a later event of the same object re-indexes and drops the toggle
+-- REGRESSION for kopf 58a504d (was the stuck state of the withdrawn C17-F3): the indexing cycle of
+-- a listed object fails (a `when=` filter raises), its worker idles out — the toggle was dropped in
+-- the `finally:`, the set is on, the other object's handlers start, nothing leaked
 example : (run .none GState.init
-    [ .spawnBegin [(1, true)], .spawn 1, .spawnEnd, .check 1 7 false, .arrive 1 7 true true, .listed 1,
-      .indexFail 1 7, .again 1 7, .index 1 7, .drop 1 7, .pass 1 7, .handle 1 7 ] : Option (GState Nat Nat)).map
-    (fun s => (healthyB s, s.handled, ready1B s)) = some (true, true, true) := by decide
+    [ .spawnBegin [(1, true)], .spawn 1, .spawnEnd, .check 1 7 false, .arrive 1 7 true true,
+      .check 1 8 false, .arrive 1 8 true true, .listed 1, .indexFail 1 7, .exit 1 7,
+      .index 1 8, .drop 1 8, .pass 1 8, .handle 1 8 ] : Option (GState Nat Nat)).map
+    (fun s => (healthyB s, s.isOn, s.handled, ready1B s)) = some (true, true, true, true) := by decide
 
 /-- the gate refuses to let a waiter pass while a kind is still listing -/
 example : (run .none GState.init
@@ -530,17 +546,6 @@ theorem dropBeforeIndex_witness : ∃ (ls : List (Label Nat Nat)) (s : GState Na
   have := h.2 (1, 7) (by decide) (by decide)
   revert this
   decide
-
-/-- **The raising path** (observation beyond the property; proposal `proposals/fix-C17F3`): the
-    indexing cycle of a listed object ends without `drop_toggle` (`indexFail`: e.g. a `when=` filter
-    of an index handler raised and the throttler swallowed it), no further event of that object
-    comes, its worker exits after the idle timeout — a reachable state with a leaked toggle. -/
-theorem gate_stuck_witness : ∃ s : GState Nat Nat, Reach s ∧ s.leaked ≠ [] ∧
-    ∀ ls s', run .none s ls = some s' → s'.isOn = false := by
-  refine ⟨_, ⟨[ .spawnBegin [(1, true)], .spawn 1, .spawnEnd, .check 1 7 false, .arrive 1 7 true true,
-                .listed 1, .indexFail 1 7, .exit 1 7 ], rfl⟩, by decide, ?_⟩
-  intro ls s' h
-  exact stuck_of_leak (Or.inl (by decide)) ls s' h
 
 /-- **The dying watcher** (observation beyond the property, AUDIT_B2 §D #8; proposal
     `proposals/fix-C17N1`): the watcher of an indexed kind ends before its LISTED (its first LIST
